@@ -160,7 +160,8 @@ namespace occa {
 
     for (udim_t i = 0; i < bytes; ++i) {
       for (int j = 0; j < 8; ++j) {
-        h[j] = (h[j] * p[j]) ^ c[i];
+        // Multiply as unsigned: the product wraps by design, signed overflow is UB
+        h[j] = ((int) (((unsigned int) h[j]) * ((unsigned int) p[j]))) ^ c[i];
       }
     }
     hash.initialized = true;
